@@ -6,6 +6,19 @@ Tie D: `extract_surface()`, `to_surface()`, `extract_surface_fistr()`, the .obj 
        also evaluates the Boolean hypotheses of the theorems (element closedness, conformity) on every mesh.
 Tie P: exact-rational volumes / fluxes of the model vs the float results of `calculate_element_volumes`.
 Oracle: the property stated on the real API only (edge counting, outwardness, enclosed volume, face sets, OBJ re-read).
+
+Every case is evaluated the same way (`evaluate`):
+  1. a LIVE object is built from the mesh and - stream A - modified through public means (in-place edits through the
+     arrays returned by `.data`, the data setters, loc / iloc write-through, `update(allow_overwrite=True)`); the mesh the
+     property talks about is the object's CURRENT public state (`state_mesh`: ids and `.data` of nodes and element blocks,
+     snapshot taken just before the operations);
+  2. REFERENCE observations: every operation on its own, independently constructed fresh object with that content;
+     the oracle and the correspondence with the model run on these;
+  3. a HISTORY on the live object: all operations in shuffled order with repeats; before / after every call the public
+     state of every live object (the parent with its user variable, every surface object and every array returned by an
+     earlier call) is compared bit-exactly, and every result must equal the reference result of that operation.
+Streams B (absolute scale / far offset, with the pair relation to the mesh at the origin) and E (sparse-but-small ids,
+single elements, internal voids, several components of different kinds) are generator dimensions of the same flow.
 """
 import os
 from fractions import Fraction as F
@@ -20,23 +33,37 @@ PROP = 'C10'
 LEAN_MODULES = ['Femio.Props.C10']
 THEOREMS = ['C10_element_closed', 'C10_element_outward', 'C10_boundary_spec', 'C10_fistr_scan_spec', 'C10_closed',
             'C10_closed_manifold', 'C10_volume', 'C10_same_face_set', 'C10_fistr_same_keys', 'C10_fistr_numbers', 'C10_obj_roundtrip',
-            'C10_obj_lex_print', 'C10_obj_roundtrip_chars']
+            'C10_obj_lex_print', 'C10_obj_roundtrip_chars', 'C10_flux_similarity', 'C10_volume_similarity',
+            'C10_enclosed_volume_translate']
 PARTIAL = [
     'C10_element_outward / C10_volume: quadrilateral faces are measured by the centroid-fan flux (exact for planar '
     'faces; for warped faces the statement is about that discretisation, which is also what femio\'s "centroid" '
     'volume kernels integrate)',
     'C10_obj_roundtrip_chars: the coordinate numerals are opaque whitespace-free tokens (hypothesis vertsOKB, evaluated '
     'by the driver on every case); that float(repr(x)) == x for the decimal text of the coordinates is trusted '
-    '(Python shortest repr) and exercised by the correspondence; line splitting models StringSeries.read_file as '
-    '"split at newlines, skip empty lines" (pandas read_csv quoting / carriage returns not modelled)',
+    '(Python shortest repr) and exercised by the correspondence at every scale (full 53-bit mantissas in the scale / offset '
+    'stream); line splitting models StringSeries.read_file as "split at newlines, skip empty lines" (pandas read_csv '
+    'quoting / carriage returns not modelled)',
+    'histories: in the model every operation is a function of (node ids, blocks, coordinates) only, so "the result does '
+    'not depend on earlier calls / the operation does not modify the object" holds in the model by construction; that the '
+    'code has this shape (no state kept on the object, no shared array modified) is checked by the oracle on shuffled '
+    'histories with snapshots, not proved (the lru_cache of extract_surface after an in-place modification is C19 / F11)',
     'STL export is not runnable in this sandbox (numpy-stl missing) and is not covered',
 ]
 RULE = ('seeded conforming solid meshes from harness/meshgen.gen_geometric: kind in tet / tet2 / hex / mixed '
         '(hex+prism+pyr) / pyr / prism, 1..3 cells per axis (thorough: ..4), random rational affine map, optional '
         'jitter, optional removed cells (voids, several components), optional unreferenced nodes, node / element ids '
-        'dense / sparse / large / ~2e9 / prefix-like, storage order ascending / descending / shuffled; a case is '
-        'non-trivial when the mesh has at least one interior face (so that extraction removes something); distinct = '
-        'distinct (connectivity, ids, storage order, coordinates)')
+        'dense / sparse / large / ~2e9 / prefix-like / sparse-but-small with additive structure (separately numbered parts, '
+        'strides, digit shifts, just above the node count, and placements under which the packed radix keys of two facets '
+        'coincide for a radix next to the node count), storage order ascending / descending / shuffled / looks-sorted; '
+        'fixed schedule of shapes: single element, 3x3x3 brick with an internal void, two components of different kinds '
+        '(tet or tet2 next to hex / prism / pyr); every third case is followed by the same mesh at another ABSOLUTE SCALE '
+        '(2^-20 .. 2^20, 1e-6 .. 1e3) or FAR OFFSET (1e3 .. 1e7 cell sizes, anisotropic, UTM-like), compared with the result '
+        'at the origin; every fourth case is MODIFIED through public means before the operations (expectation = current '
+        'public state); every case: all operations in shuffled order with repeats on one live object vs each operation on '
+        'its own fresh object, snapshots of every live object around every call; a case is non-trivial when the mesh has at '
+        'least one interior face or is a single element; distinct = distinct (connectivity, ids, storage order, '
+        'coordinates, modification, history)')
 ASSUMPTIONS = [
     'input meshes are conforming (every shared face is used by exactly two elements, as mirror images): decided per '
     'input by the model (`conformingB`, `mirrorConformingB`), meshes failing it go to a separate labelled stream',
@@ -44,62 +71,598 @@ ASSUMPTIONS = [
     'that lies on exactly two surface faces is traversed in opposite directions (two cells touching only along an '
     'edge make a 4-face edge on any correct boundary)',
     'finite coordinates (a coordinate printed as inf / nan would be misread as an `f` line by the reader)',
+    'the mesh of a modified object is what `.ids` / `.data` of its nodes and element blocks return when the operation is '
+    'called (after an in-place edit through `.data` the pandas frame of the attribute is a stale second view; femio\'s own '
+    'tests edit `.data` in place); every modification keeps the mesh valid (exactly re-validated: positive elements, star-'
+    'shaped faces) and is followed by no earlier query on that object (query - modification - query on one object is the '
+    'open finding F11 of C19, kept out of C10)',
+    'float tolerances (calibrated on the unchanged tree, seeds 0..5 quick + thorough): sum of element volumes vs exact '
+    'enclosed volume: "centroid" kernels (float32 accumulators over ABSOLUTE coordinates) 2e-6 * P^3 per element, "linear" '
+    'kernels (float64, coordinate differences) (1e-9 * D^3 + 64 eps * P * D^2) per element, P = max |coordinate|, D = '
+    'largest extent of the referenced nodes (no floor: micrometre meshes are judged at their own scale); the second term '
+    'is the conditioning of a volume with respect to one ulp of its coordinates, so far from the origin the test still '
+    'rejects formulas that cancel in absolute coordinates (error eps * P^3); everything else (face sets, closedness, '
+    'orientation from the node order, enclosed volume = sum of exact element volumes, coordinates of the surface object, '
+    'OBJ vertices read back) is exact at every scale',
 ]
 TRUSTED = ['C10: decimal text <-> float64 conversion of pandas / numpy (coordinates enter the OBJ model as opaque tokens)',
            'C10: harness/meshgen.py face tables are used by the oracle as the independent definition of "face of an element"']
 
 KINDS = ['tet', 'hex', 'mixed', 'pyr', 'prism', 'tet2']
 FISTR_FACES = [(0, 1, 2), (0, 1, 3), (1, 2, 3), (2, 0, 3)]   # FrontISTR manual: faces 1..4 of a 341 / 342 element
+EPS = 2.0 ** -52
+
+# (label, scale, shift): exact powers of two, realistic decimal unit changes (full mantissas), far offsets
+TRANSFORMS = [
+    ('pow2:-20', 2.0 ** -20, (0, 0, 0)), ('offset:1e7', 1.0, (1e7, 1e7, 1e7)), ('real:1e-6', 1e-6, (0, 0, 0)),
+    ('offset:utm', 1.0, (500000.37, 4649776.22, 120.5)), ('pow2:+20', 2.0 ** 20, (0, 0, 0)), ('offset:1e5', 1.0, (1e5, -1e5, 1e5)),
+    ('real:1e3', 1e3, (0, 0, 0)), ('offset:aniso', 1.0, (1e7, 0, -1e4)), ('pow2:-10', 2.0 ** -10, (0, 0, 0)),
+    ('micro-far', 1e-6, (0.5, -0.25, 1.0)), ('offset:1e3', 1.0, (1e3, 1e3, -1e3)), ('real:1e-3', 1e-3, (0, 0, 0)),
+    ('pow2:+10', 2.0 ** 10, (0, 0, 0)), ('offset:1e6', 1.0, (-1e6, 1e6, 0)),
+]
+MOD_KINDS = ['nodes-inplace', 'conn-inplace', 'nodes-setter', 'nodes-loc', 'conn-setter', 'nodes-update', 'nodes-iloc']
+ROT = {'tet': [1, 2, 0, 3], 'hex': [1, 2, 3, 0, 5, 6, 7, 4], 'prism': [1, 2, 0, 4, 5, 3], 'pyr': [1, 2, 3, 0, 4]}
+FIELD = {'tri': 'triangles', 'quad': 'quadrilaterals', 'pos_tri': 'positions', 'pos_quad': 'positions',
+         'surf_nodes': 'node-ids', 'surf_node_pos': 'node-coordinates', 'surf_blocks': 'elements', 'normals': 'normals',
+         'surf_flat_ids': 'element-ids', 'keep_nodes': 'node-ids', 'keep_node_pos': 'node-coordinates', 'keep_blocks': 'elements',
+         'fistr': 'rows', 'obj_text': 'text', 'obj_read_nodes': 'vertices-read-back', 'obj_read_elems': 'faces-read-back'}
 
 
-def gen(ctx, kind, big=False):
-    rnd = ctx.rng
+# ------------------------------------------------------------------ generator dimensions
+
+class _Dims:
+    """random source that answers the first three randint() calls of gen_geometric (its cell counts) with fixed values"""
+
+    def __init__(self, rnd, dims):
+        self._r, self._d = rnd, list(dims)
+
+    def randint(self, a, b):
+        return self._d.pop(0) if self._d else self._r.randint(a, b)
+
+    def __getattr__(self, k):
+        return getattr(self._r, k)
+
+
+def gen(ctx, kind, big=False, dims=None, **kw):
+    rnd = ctx.rng if dims is None else _Dims(ctx.rng, dims)
     if kind == 'tet2':
-        m = G.gen_geometric(rnd, kind='tet', max_cells=2)
-        return G.promote_tet2(rnd, m)
-    return G.gen_geometric(rnd, kind=kind, max_cells=(4 if big else 3) if kind in ('hex', 'mixed') else (3 if big else 2))
+        m = G.gen_geometric(rnd, kind='tet', max_cells=2, **kw)
+        return G.promote_tet2(ctx.rng, m)
+    return G.gen_geometric(rnd, kind=kind, max_cells=(4 if big else 3) if kind in ('hex', 'mixed') else (3 if big else 2), **kw)
 
 
-# ------------------------------------------------------------------ real observations
+def corner(t, c):
+    return c[:4] if t == 'tet2' else c
 
-def real_obs(ctx, m):
-    import femio
-    fd = U.fresh(m)
-    U.stage('extract_surface()')
-    s_idx, s_pos = G.quiet(fd.extract_surface)
-    tri, quad = U.surface_parts(s_idx)
-    obs = {'tri': tri, 'quad': quad}
-    U.stage('to_surface()')
-    sfd = G.quiet(fd.to_surface)
-    obs['surf_nodes'] = [int(i) for i in sfd.nodes.ids]
-    obs['surf_node_pos'] = sfd.nodes.data.tolist()
-    obs['surf_blocks'] = {t: ([int(i) for i in a.ids], U.rows(a.data)) for t, a in sfd.elements.items()}
-    try:
-        obs['normals'] = G.quiet(sfd.calculate_element_normals).tolist()
-        obs['surf_flat_ids'] = [int(i) for i in sfd.elements.ids]
-    except Exception as e:  # noqa
-        obs['normals_error'] = repr(e)
+
+def surface_keys(m):
+    cnt = {}
+    for t, _, c in U.elem_list(m):
+        for f in G.FACES['tet' if t == 'tet2' else t]:
+            k = tuple(sorted(c[i] for i in f))
+            cnt[k] = cnt.get(k, 0) + 1
+    return {k for k, n in cnt.items() if n == 1}
+
+
+def drop_elements(m, keep, shape, drop_unused=False):
+    """any subset of the elements of a conforming mesh is a conforming mesh"""
+    out = dict(m)
+    out['blocks'] = {t: [(e, c) for e, c in b if keep(t, e, c)] for t, b in m['blocks'].items()}
+    out['blocks'] = {t: b for t, b in out['blocks'].items() if b}
+    if drop_unused:
+        used = {n for b in out['blocks'].values() for _, c in b for n in c}
+        out['nodes'] = [(i, p) for i, p in m['nodes'] if i in used]
+    out['shape'] = shape
+    return out
+
+
+def gen_void(ctx, kind):
+    """3 x 3 x 3 brick; the elements without a node on the outer boundary are removed: an internal void whose wall is a
+    second, inward-facing component of the surface (hexes, the triangles and quadrilaterals of prisms, pyramid bases)"""
+    m = gen(ctx, 'tet' if kind == 'tet2' else kind, dims=(3, 3, 3), voids=False)
+    if kind == 'tet2':
+        m = G.promote_tet2(ctx.rng, m)
+    outer = {n for k in surface_keys(m) for n in k}
+    return drop_elements(m, lambda t, e, c: any(n in outer for n in corner(t, c)), 'void')
+
+
+def gen_single(ctx, kind):
+    """exactly one element (with or without the now unreferenced nodes of its cell)"""
+    m = gen(ctx, kind, dims=(1, 1, 1), voids=False)
+    t0 = ctx.rng.choice(list(m['blocks']))
+    e0 = ctx.rng.choice(m['blocks'][t0])[0]
+    return drop_elements(m, lambda t, e, c: (t, e) == (t0, e0), 'single', drop_unused=ctx.rng.random() < .5)
+
+
+def gen_components(ctx, kind, other):
+    """two components of different kinds side by side (a tet / tet2 part next to a hex / prism / pyramid part and so on):
+    disjoint ids (second part numbered after the first, or both renumbered), second part translated out of the way"""
+    rnd = ctx.rng
+    a = gen(ctx, kind)
+    b = gen(ctx, other)
+    hi = max(abs(v) for _, p in a['nodes'] for v in p) + max(abs(v) for _, p in b['nodes'] for v in p) + 2
+    shift = (F(int(hi) + 1), F(0), F(rnd.randint(-2, 2)))
+    off_n = max(i for i, _ in a['nodes']) + rnd.choice([0, 1, len(a['nodes']), 1000])
+    off_e = max(e for blk in a['blocks'].values() for e, _ in blk) + rnd.choice([0, 7])
+    nodes = list(a['nodes']) + [(i + off_n, tuple(x + s for x, s in zip(p, shift))) for i, p in b['nodes']]
+    blocks = {t: list(blk) for t, blk in a['blocks'].items()}
+    for t, blk in b['blocks'].items():
+        blocks.setdefault(t, [])
+        blocks[t] = blocks[t] + [(e + off_e, [n + off_n for n in c]) for e, c in blk]
+    if rnd.random() < .5:
+        rnd.shuffle(nodes)
+    for blk in blocks.values():
+        if rnd.random() < .5:
+            rnd.shuffle(blk)
+    out = dict(a)
+    out.update(nodes=nodes, blocks={t: blocks[t] for t in G.ELEMENT_TYPES if t in blocks}, kind=a['kind'] + '|' + b['kind'],
+               order='parts', id_style=str(a.get('id_style')) + '|' + str(b.get('id_style')), shape='components',
+               jittered=bool(a.get('jittered') or b.get('jittered')), n_unref=a.get('n_unref', 0) + b.get('n_unref', 0))
+    return out
+
+
+def small_sparse_ids(rnd, n):
+    """n distinct positive ids that are SPARSE BUT SMALL (max id exceeds n by a small factor only) and have additive structure,
+    so that arithmetic combinations of the ids of a facet (packed radix keys sum(id_k * B^k) with B ~ n, `id - offset`
+    tables, hashes) collide although every id is small; random sparse ids of the same size almost never do"""
+    style = rnd.choice(['parts', 'parts', 'shifted', 'stride', 'above'])
+    B = max(2, n + rnd.choice([-1, 0, 1, 1, 1, 2]))
+    if style == 'parts' and n >= 3:
+        k = rnd.choice([2, 2, 3])
+        cuts = sorted(rnd.sample(range(1, n), k - 1))
+        ids, nxt = [], 1
+        for j, (a, b) in enumerate(zip([0] + cuts, cuts + [n])):
+            start = max(nxt, j * B + rnd.choice([0, 1, 1, 1, 2]))
+            ids += list(range(start, start + b - a))
+            nxt = start + b - a + 1
+    elif style == 'shifted':
+        R = rnd.choice([B, B, 10, 16, 100])
+        pool = set()
+        while len(pool) < n:
+            j = rnd.randint(1, max(2, n // 2 + 1))
+            pool.add(rnd.choice([j, j, j * R, j * R + rnd.randint(0, j), j + R]))
+        ids = sorted(pool)
+    elif style == 'stride':
+        step = rnd.choice([2, 3, B, max(2, B - 1)])
+        a = rnd.randint(1, 3)
+        pool = {a + k * step for k in range(rnd.randint(1, n))}
+        j = 1
+        while len(pool) < n:
+            pool.add(j)
+            j += 1
+        ids = sorted(pool)
+    else:
+        style = 'above'
+        ids = list(range(1, n + 1))
+        for _ in range(rnd.randint(1, 3)):
+            new = n + rnd.randint(1, 3)
+            if new not in ids:
+                ids[rnd.randrange(n)] = new
+    assert len(set(ids)) == n and min(ids) >= 1, (style, ids)
+    return ids, 'small:' + style
+
+
+def colliding_ids(rnd, m):
+    """sparse-but-small node ids (1 .. n with ONE id moved just above the node count) placed so that the packed keys
+    sum(sorted_id_k * B^k) of a boundary facet and of another facet with the same number of nodes coincide, for a radix B
+    next to the node count (n, n + 1, n + 2) and either digit order: two facets that share all but two nodes; in the two
+    sorted positions where they differ the ids are (x, y + B) and (x + 1, y).  This is the input class on which facets
+    counted through an integer radix key (instead of row-wise) lose boundary faces; None if the mesh has no such pair"""
+    n = len(m['nodes'])
+    faces = {}
+    for t, _, c in U.elem_list(m):
+        for f in G.FACES['tet' if t == 'tet2' else t]:
+            k = frozenset(c[i] for i in f)
+            faces[k] = faces.get(k, 0) + 1
+    boundary = sorted((k for k, v in faces.items() if v == 1), key=sorted)
+    rnd.shuffle(boundary)
+    pair = None
+    for f in boundary[:20]:
+        cands = sorted((g for g in faces if len(g) == len(f) and len(g & f) == len(f) - 2), key=sorted)
+        if cands:
+            pair = (f, rnd.choice(cands))
+            break
+    if pair is None:
+        return None
+    f, g = pair
+    B = n + rnd.choice([1, 1, 1, 0, 2])
+    shared, u, v = sorted(f & g), sorted(f - g), sorted(g - f)
+    for l in (shared, u, v):
+        rnd.shuffle(l)
+    s, e = len(shared), rnd.randint(0, 2)
+    new = {}
+    if rnd.random() < .6:
+        # smallest id = most significant digit: the facets differ in their last two sorted positions (weights B, 1)
+        for j, x in enumerate(shared):
+            new[x] = j + 1
+        new[u[0]], new[v[0]], new[v[1]], new[u[1]] = s + 1, s + 2, s + 3 + e, s + 3 + e + B
+        digits = 'msd-first'
+    else:
+        # smallest id = least significant digit: they differ in their first two sorted positions (weights 1, B)
+        new[u[0]], new[v[0]] = 1 + e, 1 + e + B
+        new[v[1]] = new[v[0]] + 1 + rnd.randint(0, 1)
+        new[u[1]] = new[v[1]] + 1
+        for j, x in enumerate(shared):
+            new[x] = new[u[1]] + 1 + j
+        digits = 'lsd-first'
+    taken = set(new.values())
+    rest = [i for i, _ in m['nodes'] if i not in new]
+    rnd.shuffle(rest)
+    nxt = 1
+    for x in rest:
+        while nxt in taken:
+            nxt += 1
+        new[x] = nxt
+        taken.add(nxt)
+    assert len(set(new.values())) == n
+    return new, f'small:collide(B=n{B - n:+d},{digits})'
+
+
+def renumber(rnd, m):
+    """the same mesh under a sparse-but-small numbering of its nodes (random assignment, storage order class redrawn) and -
+    half of the time - of its elements (dense ids dealt round-robin over the types: the types INTERLEAVE in id order, or
+    one contiguous range per type)"""
+    old = [i for i, _ in m['nodes']]
+    col = colliding_ids(rnd, m) if rnd.random() < .4 else None
+    if col is not None:
+        f, style = col
+    else:
+        new, style = small_sparse_ids(rnd, len(old))
+        rnd.shuffle(new)
+        f = dict(zip(old, new))
+    keys, order = G.order_ids(rnd, list(range(len(old))), {k: f[old[k]] for k in range(len(old))})
+    nodes = [(f[m['nodes'][k][0]], m['nodes'][k][1]) for k in keys]
+    blocks = {t: [(e, [f[n] for n in c]) for e, c in b] for t, b in m['blocks'].items()}
+    if rnd.random() < .5:
+        slots = [(t, j) for t, b in blocks.items() for j in range(len(b))]
+        if rnd.random() < .5:
+            slots.sort(key=lambda s: (s[1], s[0]))         # round-robin: ids of the types interleave
+            style += '+eid:interleaved'
+        else:
+            style += '+eid:ranges'
+        eids, _ = small_sparse_ids(rnd, len(slots)) if rnd.random() < .5 else (list(range(1, len(slots) + 1)), '')
+        g = dict(zip(slots, sorted(eids)))
+        blocks = {t: [(g[(t, j)], c) for j, (_, c) in enumerate(b)] for t, b in blocks.items()}
+        for b in blocks.values():
+            if rnd.random() < .5:
+                rnd.shuffle(b)
+    out = dict(m)
+    out.update(nodes=nodes, blocks=blocks, order=order, id_style=style)
+    return out
+
+
+def transform(m, label, scale, shift):
+    """the same mesh at another absolute scale / far from the origin; coordinates are the float64 values femio will hold
+    (exact rationals of the rounded products), `exact` tells whether every coordinate is exactly scale * x + shift"""
+    s, t = F(scale), [F(x) for x in shift]
+    exact, nodes = True, []
+    for i, p in m['nodes']:
+        q = []
+        for v, d in zip(p, t):
+            w = F(float(v)) * s + d
+            fl = F(float(w))
+            exact = exact and fl == w
+            q.append(fl)
+        nodes.append((i, tuple(q)))
+    out = dict(m)
+    out.update(nodes=nodes, transform=label, transform_exact=exact)
+    return out
+
+
+def valid_mesh(m):
+    """exact: every element positive and star-shaped with respect to its centroid (each fan triangle of each face seen
+    from the inside) - the validity test of the generator, re-evaluated after a transformation / modification"""
+    X = U.coords_exact(m)
+    for t, _, c in U.elem_list(m):
+        ty = 'tet' if t == 'tet2' else t
+        P = [X[n] for n in corner(t, c)]
+        if G.signed(ty, P) <= 0:
+            return False
+        g = U.mean(P)
+        for f in G.FACES[ty]:
+            fc = U.mean([P[i] for i in f])
+            for i in range(len(f)):
+                if U.det3(U.sub(fc, g), U.sub(P[f[i - 1]], g), U.sub(P[f[i]], g)) <= 0:
+                    return False
+    return True
+
+
+def extent(m):
+    """P = max |coordinate|, D = largest extent, over the nodes the elements refer to"""
+    used = {n for _, _, c in U.elem_list(m) for n in c}
+    pts = [[float(v) for v in p] for i, p in m['nodes'] if i in used]
+    P = max(abs(v) for p in pts for v in p)
+    D = max(max(p[k] for p in pts) - min(p[k] for p in pts) for k in range(3))
+    return P, D
+
+
+def tolerances(m):
+    """per-element tolerances of the float volume kernels (ASSUMPTIONS)"""
+    P, D = extent(m)
+    return U.TOL_CENTROID * P ** 3, U.TOL_LINEAR * D ** 3 + 64 * EPS * P * D * D
+
+
+# ------------------------------------------------------------------ stream A: modification through public means
+
+def plan_mod(rnd, m, kind):
+    """a JSON-able description of one public modification of a live object of mesh `m` that keeps the mesh valid (small
+    node moves are validated exactly on the elements around the node; global maps and re-labellings are always valid)"""
+    n = len(m['nodes'])
+    X = U.coords_exact(m)
+    _, D = extent(m)
+
+    def moves(k_max):
+        used = sorted({x for _, _, c in U.elem_list(m) for x in c})
+        pos = {i: k for k, (i, _) in enumerate(m['nodes'])}
+        out = {}
+        for _ in range(12):
+            if len(out) >= k_max:
+                break
+            i = rnd.choice(used)
+            for den in (8, 32, 256, 4096):
+                d = tuple(F(rnd.randint(-1, 1) * max(1, int(D)), den) for _ in range(3))
+                if d == (0, 0, 0):
+                    continue
+                trial = dict(m)
+                trial['nodes'] = [(j, tuple(a + b for a, b in zip(p, d)) if j == i else
+                                   tuple(a + b for a, b in zip(p, out.get(pos[j], (0, 0, 0))))) for j, p in m['nodes']]
+                trial['blocks'] = {t: [(e, c) for e, c in b if i in c] for t, b in m['blocks'].items()}
+                trial['blocks'] = {t: b for t, b in trial['blocks'].items() if b}
+                if valid_mesh(trial):
+                    out[pos[i]] = d
+                    break
+        return out
+
+    if kind in ('nodes-inplace', 'nodes-setter'):
+        if rnd.random() < .5 or kind == 'nodes-setter':
+            mv = {} if kind == 'nodes-setter' and rnd.random() < .5 else moves(2)
+            if mv:
+                return {'kind': kind, 'how': 'rows', 'rows': sorted(mv), 'delta': [[str(x) for x in mv[k]] for k in sorted(mv)]}
+        return {'kind': kind, 'how': 'all', 'scale': rnd.choice([2, 0.5, 1, 3]),
+                'shift': [rnd.choice([0, 0.25, -3, 16]) for _ in range(3)]}
+    if kind in ('nodes-loc', 'nodes-iloc', 'nodes-update'):
+        mv = moves(3)
+        if mv:
+            rows = sorted(mv)
+            rnd.shuffle(rows)
+            return {'kind': kind, 'how': 'rows', 'rows': rows, 'delta': [[str(x) for x in mv[k]] for k in rows]}
+        rows = list(range(n))
+        rnd.shuffle(rows)
+        sh = [str(F(rnd.choice([1, -2, 8]), 4)) for _ in range(3)]
+        return {'kind': kind, 'how': 'rows', 'rows': rows, 'delta': [sh for _ in rows]}
+    # connectivity: an equivalent re-labelling (rotation of an element about its axis: same oriented faces, other first
+    # node) or an exchange of the connectivity of two elements of a block (the two element ids swap their cells)
+    ts = [t for t in m['blocks'] if t != 'tet2' or len(m['blocks'][t]) > 1]
+    if not ts:
+        return {'kind': kind, 'how': 'none'}
+    t = rnd.choice(ts)
+    nb = len(m['blocks'][t])
+    if t != 'tet2' and (nb < 2 or rnd.random() < .6):
+        return {'kind': kind, 'how': 'rotate', 'type': t, 'rows': sorted(rnd.sample(range(nb), rnd.randint(1, min(3, nb))))}
+    i, j = rnd.sample(range(nb), 2)
+    return {'kind': kind, 'how': 'swap', 'type': t, 'rows': [i, j]}
+
+
+def apply_mod(fd, mod):
+    """the modification, through the public API only"""
+    kind, how = mod['kind'], mod['how']
+    if how == 'none':
+        return
+    if kind.startswith('nodes'):
+        if how == 'rows':
+            rows = list(mod['rows'])
+            delta = np.array([[float(F(x)) for x in r] for r in mod['delta']])
+        if kind == 'nodes-inplace':
+            a = fd.nodes.data                      # the array the property `.data` returns
+            if how == 'rows':
+                for k, d in zip(rows, delta):
+                    a[k] += d
+            else:
+                a *= mod['scale']
+                a += np.array(mod['shift'], dtype=float)
+        elif kind == 'nodes-setter':
+            new = np.array(fd.nodes.data, dtype=float, copy=True)
+            if how == 'rows':
+                new[rows] += delta
+            else:
+                new = new * mod['scale'] + np.array(mod['shift'], dtype=float)
+            fd.nodes.data = new
+        elif kind == 'nodes-loc':
+            ids = [int(fd.nodes.ids[k]) for k in rows]
+            fd.nodes.loc[ids].data = fd.nodes.data[rows] + delta
+        elif kind == 'nodes-iloc':
+            fd.nodes.iloc[rows].data = fd.nodes.data[rows] + delta
+        elif kind == 'nodes-update':
+            ids = [int(fd.nodes.ids[k]) for k in rows]
+            fd.nodes.update(ids, fd.nodes.data[rows] + delta, allow_overwrite=True)
+        return
+    t, rows = mod['type'], list(mod['rows'])
+    single = len(fd.elements.keys()) == 1
+    if kind == 'conn-inplace':
+        # through the block, or (single type) through the array `fd.elements.data` returns
+        a = fd.elements.data if (single and sum(rows) % 2) else fd.elements[t].data
+        if how == 'rotate':
+            for k in rows:
+                a[k] = a[k][ROT[t]].copy()
+        else:
+            i, j = rows
+            a[[i, j]] = a[[j, i]].copy()
+    else:
+        new = np.array(fd.elements[t].data, copy=True)
+        if how == 'rotate':
+            for k in rows:
+                new[k] = new[k][ROT[t]]
+        else:
+            i, j = rows
+            new[[i, j]] = new[[j, i]]
+        if single:
+            fd.elements.data = new
+        else:
+            # replace the block by a new attribute and let the container rebuild its derived views
+            from femio import FEMAttribute
+            fd.elements.update({t: FEMAttribute(t, ids=np.array(fd.elements[t].ids), data=new, silent=True)})
+
+
+def state_mesh(fd, like):
+    """the mesh the object currently describes, read through the public attributes"""
+    out = dict(like)
+    out['nodes'] = [(int(i), tuple(F(float(v)) for v in p)) for i, p in zip(fd.nodes.ids, fd.nodes.data)]
+    out['blocks'] = {t: [(int(e), [int(x) for x in c]) for e, c in zip(a.ids, a.data)] for t, a in fd.elements.items()}
+    return out
+
+
+# ------------------------------------------------------------------ operations on the real API
+
+def pos_parts(s_pos):
+    def lst(a):
+        return [[[float(v) for v in p] for p in f] for f in a]
+    if isinstance(s_pos, dict):
+        return lst(s_pos.get('tri', [])), lst(s_pos.get('quad', []))
+    r = lst(s_pos)
+    return (r, []) if (r and len(r[0]) == 3) else ([], r)
+
+
+def fd_canon(sfd, prefix):
+    return {prefix + '_nodes': [int(i) for i in sfd.nodes.ids], prefix + '_node_pos': sfd.nodes.data.tolist(),
+            prefix + '_blocks': {t: ([int(i) for i in a.ids], U.rows(a.data)) for t, a in sfd.elements.items()}}
+
+
+def available_ops(m):
+    ops = ['extract_surface', 'to_surface', 'to_surface_keep', 'write_obj']
     if set(m['blocks']) <= {'tet', 'tet2'} and len(m['blocks']) == 1:
+        ops.append('fistr')
+    return ops
+
+
+def do_op(ctx, fd, op, tag, clutter=None):
+    """one operation of the property on `fd`: (canonical observation, [(label, thunk)] re-reading every array / object the
+    call returned, so that a later call changing it is seen)"""
+    import femio
+    if op == 'extract_surface':
+        U.stage('extract_surface()')
+        s_idx, s_pos = G.quiet(fd.extract_surface)
+
+        def canon():
+            tri, quad = U.surface_parts(s_idx)
+            pt, pq = pos_parts(s_pos)
+            return {'tri': tri, 'quad': quad, 'pos_tri': pt, 'pos_quad': pq}
+        return canon(), [('extract_surface() arrays', canon)]
+    if op == 'to_surface':
+        U.stage('to_surface()')
+        sfd = G.quiet(fd.to_surface)
+        c = fd_canon(sfd, 'surf')
+        try:
+            c['normals'] = G.quiet(sfd.calculate_element_normals).tolist()
+            c['surf_flat_ids'] = [int(i) for i in sfd.elements.ids]
+        except Exception as e:  # noqa
+            c['normals_error'] = repr(e)
+        return c, [('to_surface() object', lambda: fd_canon(sfd, 'surf'))]
+    if op == 'to_surface_keep':
+        U.stage('to_surface(remove_unnecessary_nodes=False)')
+        sfd = G.quiet(fd.to_surface, remove_unnecessary_nodes=False)
+        return fd_canon(sfd, 'keep'), [('to_surface(remove_unnecessary_nodes=False) object', lambda: fd_canon(sfd, 'keep'))]
+    if op == 'fistr':
         U.stage('extract_surface_fistr()')
-        obs['fistr'] = U.rows(G.quiet(fd.extract_surface_fistr))
-    path = str(ctx.tmp / 'real.obj')
-    if os.path.exists(path):
-        os.remove(path)
-    U.stage("write('obj')")
-    G.quiet(fd.write, 'obj', path)
-    obs['obj_text'] = open(path).read()
-    U.stage("read_files('obj')")
-    rd = G.quiet(femio.FEMData.read_files, 'obj', [path])
-    obs['obj_read_nodes'] = ([int(i) for i in rd.nodes.ids], rd.nodes.data.tolist())
-    obs['obj_read_elems'] = {t: ([int(i) for i in a.ids], U.rows(a.data)) for t, a in rd.elements.items()}
+        r = G.quiet(fd.extract_surface_fistr)
+        return {'fistr': U.rows(r)}, [('extract_surface_fistr() array', lambda: {'fistr': U.rows(r)})]
+    if op == 'write_obj':
+        path = str(ctx.tmp / (tag + '.obj'))
+        if os.path.exists(path):
+            os.remove(path)
+        U.stage("write('obj')")
+        if clutter is not None:
+            # an existing output file with realistic content (the export of another mesh) rewritten with overwrite=True
+            open(path, 'w').write(clutter)
+            G.quiet(fd.write, 'obj', path, overwrite=True)
+        else:
+            G.quiet(fd.write, 'obj', path)
+        text = open(path).read()
+        U.stage("read_files('obj')")
+        rd = G.quiet(femio.FEMData.read_files, 'obj', [path])
+        return {'obj_text': text, 'obj_read_nodes': ([int(i) for i in rd.nodes.ids], rd.nodes.data.tolist()),
+                'obj_read_elems': {t: ([int(i) for i in a.ids], U.rows(a.data)) for t, a in rd.elements.items()}}, []
+    raise ValueError(op)
+
+
+def volumes(m):
     vols = {}
     U.stage('calculate_element_volumes()')
     for mode in ('centroid', 'linear'):
-        vols[mode] = U.real_volumes(m, mode)
-        f2 = U.fresh(m)
-        vols[mode + '_total'] = float(G.quiet(f2.calculate_element_volumes, mode=mode, raise_negative_volume=False).sum())
-    obs['vols'] = vols
+        # element id -> volume, block by block (update=False: nothing is stored on the object), then the whole-mesh call a
+        # user would make for "the sum of the element volumes", on the same fresh object
+        fd = U.fresh(m)
+        vols[mode] = {}
+        for t, blk in fd.elements.items():
+            v = G.quiet(fd.calculate_element_volumes, mode=mode, raise_negative_volume=False, elements=blk,
+                        element_type=t, update=False)
+            vols[mode].update(zip([int(i) for i in blk.ids], [float(x) for x in v[:, 0]]))
+        vols[mode + '_total'] = float(G.quiet(fd.calculate_element_volumes, mode=mode, raise_negative_volume=False).sum())
+    return vols
+
+
+def reference(ctx, m, per_op=True):
+    """reference observations + the float volumes.  per_op: every operation on its own freshly built object (no history at
+    all); otherwise (two of three cases of the quick tier, for the run time) all operations in a fixed order on one fresh
+    object - the shuffled history on the live object is compared with either, so a result that depends on what was called
+    before shows up as a difference in both arrangements"""
+    obs = {}
+    fd = None
+    for op in available_ops(m):
+        if per_op or fd is None:
+            fd = U.fresh(m)
+        c, _ = do_op(ctx, fd, op, 'ref')
+        obs.update(c)
+    ctx.count('reference:' + ('one fresh object per operation' if per_op else 'one fresh object, fixed order'))
+    obs['vols'] = volumes(m)
     return obs
+
+
+def parent_state(fd):
+    """public user data of the live object: ids, coordinates, connectivity (blocks and the container's own views), variables"""
+    s = {'node ids': [int(i) for i in fd.nodes.ids], 'coordinates': fd.nodes.data.tolist(),
+         'coordinates (bit patterns)': np.asarray(fd.nodes.data, dtype=float).tobytes().hex(),
+         'element ids': [int(i) for i in fd.elements.ids], 'connectivity': [[int(x) for x in r] for r in fd.elements.data]}
+    for t, a in fd.elements.items():
+        s['element ids of ' + t] = [int(i) for i in a.ids]
+        s['connectivity of ' + t] = U.rows(a.data)
+    s['nodal variables'] = {k: ([int(i) for i in v.ids], np.asarray(v.data).tolist()) for k, v in fd.nodal_data.items()}
+    s['elemental variables'] = sorted(fd.elemental_data.keys())
+    return s
+
+
+def first_diff(a, b):
+    return next((k for k in a if a[k] != b.get(k)), None) or next((k for k in b if k not in a), None)
+
+
+def history(ctx, fd, ref, seq, case, prefix, clutter):
+    """the operations of `seq` one after the other on the live object `fd`"""
+    held = []
+    before = parent_state(fd)
+    for step, op in enumerate(seq):
+        c, new = do_op(ctx, fd, op, 'live', clutter=clutter if (op == 'write_obj' and step % 2) else None)
+        ctx.count('history-op:' + op)
+        now = parent_state(fd)
+        if now != before:
+            k = first_diff(before, now)
+            ctx.fail(f'{prefix}:{op}:modifies-the-object:{k}', f'{U.STAGE[0]} changed the {k} of the object it was called on',
+                     case, {'step': step, 'history': seq[:step + 1], 'before': str(before[k])[:300], 'after': str(now.get(k))[:300]})
+            before = now
+        for label, thunk, val in held:
+            cur = thunk()
+            if cur != val:
+                k = first_diff(val, cur)
+                ctx.fail(f'{prefix}:{op}:modifies-earlier-result:{label}:{FIELD.get(k, k)}',
+                         f'{op} changed the {label} returned by an earlier call on the same object', case,
+                         {'step': step, 'history': seq[:step + 1], 'field': k, 'was': str(val[k])[:300], 'now': str(cur[k])[:300]})
+                val.clear()
+                val.update(cur)
+        held += [(label, thunk, dict(thunk())) for label, thunk in new]
+        k = next((k for k in c if c[k] != ref.get(k)), None)
+        if k is not None:
+            ctx.fail(f'{prefix}:{op}:{FIELD.get(k, k)}',
+                     f'{op} on the live object ({prefix}) differs from the same call on a freshly built object with the same '
+                     f'ids, coordinates and connectivity ({k})', case,
+                     {'step': step, 'history': seq[:step + 1], 'field': k, 'live': str(c[k])[:400], 'fresh': str(ref.get(k))[:400]})
 
 
 # ------------------------------------------------------------------ property oracle (real API only)
@@ -108,7 +671,7 @@ def oracle(ctx, m, obs, case):
     ids = [i for i, _ in m['nodes']]
     X = U.coords_exact(m)
     els = U.elem_list(m)
-    sc = U.scale(m)
+    tol_c, tol_l = tolerances(m)
     surf = [[ids[k] for k in f] for f in obs['tri'] + obs['quad']]
 
     # (a) exactly the faces that belong to one element only (independent face tables)
@@ -125,6 +688,10 @@ def oracle(ctx, m, obs, case):
         ctx.fail('surface:not-the-once-only-faces', 'extract_surface() is not the set of faces used by exactly one element',
                  case, {'missing': [k for k in expect if k not in got][:5], 'extra': [k for k in got if k not in expect][:5]})
         return
+    want = [[[float(v) for v in X[i]] for i in f] for f in surf]
+    if obs['pos_tri'] + obs['pos_quad'] != want:
+        ctx.fail('surface:positions', 'the positions returned by extract_surface() are not the coordinates of the nodes of its faces',
+                 case, {'first_diff': next(((a, b) for a, b in zip(obs['pos_tri'] + obs['pos_quad'], want) if a != b), None)})
     owner = {k: e for k, e in allf if cnt[k] == 1}
     # (b) closed: balanced directed edges; edges on exactly two faces are traversed in opposite directions
     ec = {}
@@ -137,53 +704,82 @@ def oracle(ctx, m, obs, case):
                  case, {'edges': bad[:5], 'counts': [(ec[e], ec.get((e[1], e[0]), 0)) for e in bad[:5]]})
     if any(ec[e] + ec.get((e[1], e[0]), 0) != 2 for e in ec):
         ctx.count('surface:has-non-manifold-edge')
-    # (c) outwards: (face centre - owner centre) . normal > 0, normal from the real surface object
-    conn = {e: c for _, e, c in els}
-    ety = {e: t for t, e, _ in els}
+    # (c) outwards: exactly, from the node order (vector area . (face centre - element centre) > 0) ...
+    conn = {e: corner(t, c) for t, e, c in els}
+    for f in surf:
+        cc = U.mean([X[i] for i in conn[owner[tuple(sorted(f))]]])
+        P = [X[i] for i in f]
+        d = U.dot(U.sub(U.mean(P), cc), U.vector_area(P))
+        if not d > 0:
+            ctx.fail('surface:inward-face', 'a face of extract_surface() is oriented into its element (node order)', case,
+                     {'face': f, 'element': owner[tuple(sorted(f))], 'dot': float(d)})
+            break
+    # ... and with the normals the real surface object computes
     if 'normals' in obs:
         sflat = {}
         for t, (eids, data) in obs['surf_blocks'].items():
             for i, r in zip(eids, data):
                 sflat[i] = r
         for sid, nrm in zip(obs['surf_flat_ids'], obs['normals']):
-            f = sflat[sid]
-            c = conn[owner[tuple(sorted(f))]]
-            if ety[owner[tuple(sorted(f))]] == 'tet2':
-                c = c[:4]
+            f = sflat.get(sid)
+            if f is None or tuple(sorted(f)) not in owner:
+                continue     # reported below (same-faces:to_surface)
             fc = U.mean([X[i] for i in f])
-            cc = U.mean([X[i] for i in c])
+            cc = U.mean([X[i] for i in conn[owner[tuple(sorted(f))]]])
             d = float(U.dot(U.sub(fc, cc), tuple(F(x) for x in nrm)))
             if not d > 0:
                 ctx.fail('surface:inward-face', 'a face of to_surface() has its normal pointing into its element', case,
                          {'face': f, 'element': owner[tuple(sorted(f))], 'dot': d})
                 break
-    # (d) encloses the sum of the element volumes (exact flux of the real face list vs real float volumes)
+    # (d) encloses the sum of the element volumes: exactly (centroid-fan volume of every element, rational arithmetic) ...
     enclosed = sum(U.face_flux([X[i] for i in f]) for f in surf)
-    for mode, tol in (('centroid', U.TOL_CENTROID), ('linear', U.TOL_LINEAR)):
-        if mode == 'linear' and not set(m['blocks']) <= {'tet', 'tet2'}:
+    exact_total = sum(U.face_flux([X[c[i]] for i in f]) for t, _, c in els for f in G.FACES['tet' if t == 'tet2' else t])
+    if enclosed != exact_total:
+        ctx.fail('surface:volume-mismatch', 'volume enclosed by the surface differs from the exact sum of the element volumes',
+                 case, {'enclosed': float(enclosed), 'sum_volumes': float(exact_total), 'mode': 'exact'})
+    # ... and against the float volumes of the real kernels
+    lin_total = sum(F(G.signed('tet' if t == 'tet2' else t, [X[i] for i in corner(t, c)]), 6) for t, _, c in els)
+    for mode, tol in (('centroid', tol_c), ('linear', tol_l)):
+        if mode == 'linear' and abs(lin_total - exact_total) > tol * len(els) / 64:
+            ctx.count('linear-volume-mode-skipped (warped faces: other diagonals)')
             continue  # the "linear" hex / prism / pyr kernels use other diagonals on warped faces
         tot = obs['vols'][mode + '_total']
-        if not U.close(enclosed, tot, tol * sc * max(1, len(els))):
+        if not U.close(enclosed, tot, tol * max(1, len(els))):
             ctx.fail('surface:volume-mismatch', f'volume enclosed by the surface differs from the sum of element volumes ({mode})',
-                     case, {'enclosed': float(enclosed), 'sum_volumes': tot, 'mode': mode})
+                     case, {'enclosed': float(enclosed), 'sum_volumes': tot, 'mode': mode, 'tolerance': tol * max(1, len(els))})
+        elif float(enclosed) != 0:
+            r = abs(float(enclosed) - tot) / abs(float(enclosed))
+            ctx.extra.setdefault('max_rel_volume_error', {})
+            key = mode + ('@' + m['transform'].split(':')[0] if m.get('transform') else '')
+            ctx.extra['max_rel_volume_error'][key] = max(ctx.extra['max_rel_volume_error'].get(key, 0.0), r)
     if min(obs['vols']['centroid'].values()) <= 0:
-        ctx.count('input:non-positive-element')
+        ctx.count('input:non-positive-element (float32 centroid kernel)')
     # (e) surface object, (element, face no.) list and OBJ describe the same faces
     sobj = [U.cyc_canon(r) for t, (_, data) in obs['surf_blocks'].items() for r in data]
     if sorted(sobj) != sorted(U.cyc_canon(f) for f in surf):
         ctx.fail('same-faces:to_surface', 'to_surface() elements differ from extract_surface()', case,
                  {'to_surface': sorted(sobj)[:5], 'extract_surface': sorted(U.cyc_canon(f) for f in surf)[:5]})
-    if sorted(obs['surf_nodes']) != sorted({i for f in surf for i in f}) or \
-            [i for i in ids if i in set(obs['surf_nodes'])] != obs['surf_nodes']:
+    on_surf = {i for f in surf for i in f}
+    if sorted(obs['surf_nodes']) != sorted(on_surf) or [i for i in ids if i in set(obs['surf_nodes'])] != obs['surf_nodes']:
         ctx.fail('same-faces:to_surface-nodes', 'to_surface() nodes are not the surface nodes in storage order', case,
                  {'nodes': obs['surf_nodes'][:10]})
+    elif obs['surf_node_pos'] != [[float(v) for v in X[i]] for i in obs['surf_nodes']]:
+        ctx.fail('same-faces:to_surface-node-coordinates', 'the nodes of to_surface() do not have the coordinates of the mesh nodes',
+                 case, {'first_diff': next(((i, a, [float(v) for v in X[i]]) for i, a in zip(obs['surf_nodes'], obs['surf_node_pos'])
+                                           if a != [float(v) for v in X[i]]), None)})
+    if obs['keep_blocks'] != obs['surf_blocks'] or obs['keep_nodes'] != ids or \
+            obs['keep_node_pos'] != [[float(v) for v in X[i]] for i in ids]:
+        ctx.fail('same-faces:to_surface-keep-nodes', 'to_surface(remove_unnecessary_nodes=False) is not the surface of to_surface() '
+                 'over all the nodes of the mesh', case, {'nodes': obs['keep_nodes'][:10], 'blocks': str(obs['keep_blocks'])[:300]})
     objf = [[int(x) for x in ln.split()[1:]] for ln in obs['obj_text'].splitlines() if ln.startswith('f ')]
     if any(k < 1 or k > len(ids) for f in objf for k in f):
         ctx.fail('same-faces:obj', 'an f line of the .obj file refers to a vertex number outside 1..n', case, {'f_lines': objf[:5]})
     elif sorted(U.cyc_canon([ids[k - 1] for k in f]) for f in objf) != sorted(U.cyc_canon(f) for f in surf):
         ctx.fail('same-faces:obj', 'the f lines of the .obj file differ from extract_surface()', case, {'f_lines': objf[:5]})
     if 'fistr' in obs:
-        fk = sorted(tuple(sorted(conn[e][i] for i in FISTR_FACES[k - 1])) for e, k in obs['fistr'])
+        full = {e: c for _, e, c in els}
+        fk = sorted(tuple(sorted(full[e][i] for i in FISTR_FACES[k - 1])) if e in full and 1 <= k <= 4 else (e, k)
+                    for e, k in obs['fistr'])
         if fk != got:
             ctx.fail('same-faces:fistr', 'extract_surface_fistr() (element, face number) rows describe another face set',
                      case, {'fistr': fk[:5], 'surface': got[:5]})
@@ -253,12 +849,17 @@ def correspond(ctx, m, obs, case):
     else:
         mv = t.lst(lambda: t.lst(lambda: C.unesc(t.tok())))
         mfaces = U.parse_faces(t)
-        import femio
-        p2 = str(ctx.tmp / 'model.obj')
-        open(p2, 'w').write(text)
-        rd = G.quiet(femio.FEMData.read_files, 'obj', [p2])
-        rv = rd.nodes.data.tolist()
-        rf = [r for tt in ('tri', 'quad') for r in (U.rows(rd.elements[tt].data) if tt in rd.elements else [])]
+        if text == obs['obj_text']:
+            # the real reader has just read exactly this text (reference observation)
+            rv = obs['obj_read_nodes'][1]
+            rf = [r for tt in ('tri', 'quad') for r in obs['obj_read_elems'].get(tt, ([], []))[1]]
+        else:
+            import femio
+            p2 = str(ctx.tmp / 'model.obj')
+            open(p2, 'w').write(text)
+            rd = G.quiet(femio.FEMData.read_files, 'obj', [p2])
+            rv = rd.nodes.data.tolist()
+            rf = [r for tt in ('tri', 'quad') for r in (U.rows(rd.elements[tt].data) if tt in rd.elements else [])]
         # the reader groups faces by shape; the model keeps file order = tri block then quad block
         if rv != [[float(x) for x in r] for r in mv] or rf != mfaces:
             ctx.disagree('.obj re-read (real reader on the model\'s text vs model reader)', case,
@@ -268,12 +869,12 @@ def correspond(ctx, m, obs, case):
     t.tok()
     sflux, tvol = t.rat(), t.rat()
     per = t.lst(lambda: (t.nat(), t.rat(), t.rat()))
-    sc = U.scale(m)
+    tol_c, tol_l = tolerances(m)
     for e, vc, vl in per:
-        if not U.close(vc, obs['vols']['centroid'][e], U.TOL_CENTROID * sc):
+        if not U.close(vc, obs['vols']['centroid'][e], tol_c):
             ctx.disagree('volume kernel (centroid)', case, obs['vols']['centroid'][e], float(vc))
             break
-        if not U.close(vl, obs['vols']['linear'][e], U.TOL_LINEAR * sc):
+        if not U.close(vl, obs['vols']['linear'][e], tol_l):
             ctx.disagree('volume kernel (linear)', case, obs['vols']['linear'][e], float(vl))
             break
     flags['flux_equals_volume'] = int(sflux == tvol)
@@ -286,64 +887,186 @@ def correspond(ctx, m, obs, case):
     enclosed = sum(U.face_flux([X[i] for i in f]) for f in surf)
     if enclosed != sflux:
         ctx.disagree('flux of the real surface (exact) vs model surface flux', case, str(enclosed), str(sflux))
+    flags['model_flux'] = sflux
     return flags
 
 
-def one_case(ctx, m, stream='main'):
-    case = U.mesh_case(m)
-    key = (tuple(m['nodes']), tuple((t, tuple((e, tuple(c)) for e, c in b)) for t, b in m['blocks'].items()))
-    obs = U.guarded(ctx, case, key, real_obs, ctx, m)
+# ------------------------------------------------------------------ one case
+
+COMBINATORIAL = ['tri', 'quad', 'surf_nodes', 'surf_blocks', 'surf_flat_ids', 'keep_nodes', 'keep_blocks', 'fistr', 'obj_read_elems']
+
+
+def make_case(m, mod, seq, base=None):
+    case = U.mesh_case(m, transform=m.get('transform'))
+    if mod is not None:
+        case['modification'] = mod
+    if seq:
+        case['history'] = list(seq)
+    if base is not None:
+        case['base_mesh'] = G.to_json(base)
+    return case
+
+
+def evaluate(ctx, m, mod=None, seq=None, base=None, clutter=None, per_op=True):
+    """reference observations (fresh object per operation) judged by the oracle and the model, the history on the live
+    object, the pair relation to the same mesh at the origin.  Returns (reference observations, model flags) or None."""
+    from femio import FEMAttribute
+    case = make_case(m, mod, seq, base[0] if base else None)
+    key = (tuple(m['nodes']), tuple((t, tuple((e, tuple(c)) for e, c in b)) for t, b in m['blocks'].items()),
+           repr(mod), tuple(seq or ()))
+    prefix = 'history' if mod is None else 'modified:' + mod['kind']
+
+    def body():
+        U.stage('FEMData(nodes, elements)')
+        live = U.fresh(m)
+        nid = np.array([i for i, _ in m['nodes']])
+        live.nodal_data['T'] = FEMAttribute('T', nid, np.arange(len(nid), dtype=float)[:, None] / 8 - 1, silent=True)
+        cur = m
+        if mod is not None:
+            U.stage('modification ' + mod['kind'])
+            apply_mod(live, mod)
+            cur = state_mesh(live, m)
+        return live, cur
+
+    got = U.guarded(ctx, case, key, body)
+    if got is None:
+        return None
+    live, cur = got
+    if mod is not None and (not valid_mesh(cur) or mod['how'] == 'none'):
+        ctx.count('modification not applicable to this mesh (case skipped)')
+        return None
+    obs = U.guarded(ctx, case, key, reference, ctx, cur, per_op)
     if obs is None:
-        return
-    n_int = sum(len(G.FACES['tet' if t == 'tet2' else t]) for t, _, _ in U.elem_list(m)) - len(obs['tri']) - len(obs['quad'])
+        return None
+    els = U.elem_list(cur)
+    n_int = sum(len(G.FACES['tet' if t == 'tet2' else t]) for t, _, _ in els) - len(obs['tri']) - len(obs['quad'])
     ctx.case(key, sample={**G.describe(m), 'surface_tri': len(obs['tri']), 'surface_quad': len(obs['quad']),
-                          'interior_face_slots': n_int}, nontrivial=n_int > 0)
+                          'interior_face_slots': n_int, 'shape': m.get('shape', 'brick'), 'transform': m.get('transform'),
+                          'modification': mod and mod['kind'], 'history': seq},
+             nontrivial=n_int > 0 or len(els) == 1)
     ctx.count('kind:' + m['kind'])
     ctx.count('order:' + m['order'])
     ctx.count('ids:' + str(m.get('id_style')))
     ctx.count('jittered:' + str(m.get('jittered')))
     ctx.count('types:' + '+'.join(m['blocks']))
+    ctx.count('shape:' + m.get('shape', 'brick'))
+    ctx.count('transform:' + str(m.get('transform')) + ('' if not m.get('transform') else
+                                                       ' (exact)' if m.get('transform_exact') else ' (rounded)'))
+    ctx.count('modification:' + (f"{mod['kind']}/{mod['how']}" if mod else 'none'))
     if m.get('n_unref'):
         ctx.count('has-unreferenced-nodes')
+    flags = None
     if ctx.driver is not None:
-        flags = correspond(ctx, m, obs, case)
+        flags = correspond(ctx, cur, obs, case)
         if flags is not None and not (flags['wf'] and flags['closed_elements'] and flags['mirror_conforming']):
             # the generator only produces conforming meshes (validated in meshgen): a false hypothesis means the
             # regenerated tables / the model changed, not that the input is outside the theorem - keep the oracle on
             ctx.disagree('a theorem hypothesis evaluates to false on a generator-conforming mesh', case, None, flags)
-    oracle(ctx, m, obs, case)
+    oracle(ctx, cur, obs, case)
+    if seq:
+        U.guarded(ctx, case, key, history, ctx, live, obs, seq, case, prefix, clutter)
+    if base is not None:
+        # the same mesh at the origin: everything combinatorial is identical (B: translated / scaled result = result at
+        # the origin transformed; the coordinates themselves are compared bit-exactly by the oracle above)
+        bobs, bflags, (label, scale, shift) = base[1], base[2], base[3]
+        for k in COMBINATORIAL:
+            if obs.get(k) != bobs.get(k):
+                ctx.fail(f'scale-offset:{FIELD.get(k, k)}', f'{k} of the mesh after "{label}" differs from the result for the same '
+                         'mesh at the origin', case, {'field': k, 'moved': str(obs.get(k))[:300], 'origin': str(bobs.get(k))[:300]})
+                break
+        if [ln for ln in obs['obj_text'].splitlines() if ln.startswith('f ')] != \
+                [ln for ln in bobs['obj_text'].splitlines() if ln.startswith('f ')]:
+            ctx.fail('scale-offset:obj-f-lines', f'the f lines of the .obj file after "{label}" differ from those at the origin', case, None)
+        if flags is not None and bflags is not None and m.get('transform_exact'):
+            # instance of C10_flux_similarity / C10_enclosed_volume_translate: an exact map p -> s p + t multiplies the
+            # enclosed volume by s^3
+            if flags['model_flux'] != bflags['model_flux'] * F(scale) ** 3:
+                ctx.disagree('model: enclosed volume of the scaled / translated mesh != s^3 * enclosed volume at the origin '
+                             '(C10_flux_similarity, C10_enclosed_volume_translate instance)',
+                             case, None, [str(flags['model_flux']), str(bflags['model_flux'])])
+    return obs, flags
+
+
+def draw_history(rnd, m, quick):
+    ops = available_ops(m)
+    seq = rnd.sample(ops, len(ops))
+    for _ in range(2 if quick else rnd.randint(2, 5)):
+        seq.insert(rnd.randint(1, len(seq)), rnd.choice(ops))
+    return seq
 
 
 def run(ctx):
-    n = ctx.n(180, 2500) if ctx.driver is not None else ctx.n(300, 1200)
+    rnd = ctx.rng
+    n = ctx.n(126, 1800) if ctx.driver is not None else ctx.n(200, 900)
     for name, obj in C.corpus_cases(PROP):
         try:
-            one_case(ctx, G.from_json(obj['input']['mesh'] if 'input' in obj else obj['mesh']))
+            replay(ctx, obj)
             ctx.count('corpus')
         except Exception as e:  # noqa
             ctx.notes.append(f'corpus case {name}: {e!r}')
+    clutter = 'v 0.0 0.0 0.0\nv 1.0 0.0 0.0\nv 0.0 1.0 0.0\nv 0.0 0.0 1.0\nf 1 3 2\nf 1 2 4\nf 2 3 4\nf 1 4 3\n'
+    n_tr = n_mod = 0
     for k in range(n):
         kind = KINDS[k % len(KINDS)]
-        m = gen(ctx, kind, big=(not ctx.quick and k % 5 == 0))
-        one_case(ctx, m)
+        j = k // len(KINDS)                       # fixed schedule of shapes per kind
+        if j % 10 == 2:
+            m = gen_single(ctx, kind)
+        elif j % 7 == 4:
+            # fixed rotation of the partner kind: every unordered pair of kinds (tet | tet2 included) occurs in every run
+            m = gen_components(ctx, kind, KINDS[(k % len(KINDS) + 1 + 2 * (j // 7)) % len(KINDS)])
+        elif j % 21 == 6 and not (ctx.quick and kind in ('tet', 'tet2')):
+            m = gen_void(ctx, kind)
+        else:
+            m = gen(ctx, kind, big=(not ctx.quick and k % 5 == 0))
+        m.setdefault('shape', 'brick')
+        if k % 3 == 1 and m['shape'] != 'components':
+            m = renumber(rnd, m)
+        mod = None
+        if k % 4 == 2:
+            mod = plan_mod(rnd, m, MOD_KINDS[n_mod % len(MOD_KINDS)])
+            n_mod += 1
+        res = evaluate(ctx, m, mod=mod, seq=draw_history(rnd, m, ctx.quick), clutter=clutter,
+                       per_op=(not ctx.quick) or k % 3 == 2 or mod is not None)
+        if res is not None and res[0].get('obj_text'):
+            clutter = res[0]['obj_text']
+        if k % 3 == 0 and mod is None and res is not None and not (ctx.quick and m['shape'] == 'void'):
+            tr = TRANSFORMS[n_tr % len(TRANSFORMS)]
+            n_tr += 1
+            m2 = transform(m, *tr)
+            # an exact similarity keeps every element valid; after rounding the validity is re-decided exactly
+            if m2['transform_exact'] or valid_mesh(m2):
+                evaluate(ctx, m2, seq=draw_history(rnd, m2, True)[:3], base=(m, res[0], res[1], tr), clutter=clutter,
+                         per_op=not ctx.quick)
+            else:
+                ctx.count('transform:rounding made an element invalid (skipped)')
     ctx.extra['p_tie'] = {'tolerance_centroid': U.TOL_CENTROID, 'tolerance_linear': U.TOL_LINEAR,
-                          'scale': 'max|coordinate|^3', 'points': 'rational grid, denominators <= 64, |p| <= ~20'}
+                          'scale': 'centroid: P^3, linear: D^3 (+ 64 eps P D^2), P = max|coordinate|, D = extent (referenced nodes)',
+                          'points': 'rational grid, denominators <= 64, |p| <= ~20; scale / offset stream: the float64 '
+                                    'roundings of s * p + t (full mantissas), |p| up to 2e7'}
 
 
 def replay(ctx, obj):
-    m = G.from_json(obj['input']['mesh'])
-    case = U.mesh_case(m)
+    inp = obj['input'] if 'input' in obj else obj
+    m = G.from_json(inp['mesh'])
+    if inp.get('transform'):
+        m['transform'] = inp['transform']
     n0 = len(ctx.failures)
-    obs = U.guarded(ctx, case, 'replay', real_obs, ctx, m)
-    if obs is None:
-        return {'describe': G.describe(m), 'failures': [{'signature': f['signature'], 'what': f['what'], 'observed': f['observed']}
-                                                        for f in ctx.failures[n0:]], 'fails': True}
-    oracle(ctx, m, obs, case)
-    res = {'describe': G.describe(m), 'surface_tri': obs['tri'][:10], 'surface_quad': obs['quad'][:10],
+    d0 = len(ctx.disagreements)
+    base = None
+    if inp.get('base_mesh'):
+        b = G.from_json(inp['base_mesh'])
+        r = evaluate(ctx, b)
+        tr = next((t for t in TRANSFORMS if t[0] == inp.get('transform')), ('?', 1.0, (1, 1, 1)))
+        if r is not None:
+            m['transform_exact'] = transform(b, *tr)['nodes'] == m['nodes'] and transform(b, *tr)['transform_exact']
+            base = (b, r[0], r[1], tr)
+    res = evaluate(ctx, m, mod=inp.get('modification'), seq=inp.get('history'), base=base,
+                   clutter='v 0.0 0.0 0.0\nv 1.0 0.0 0.0\nv 0.0 1.0 0.0\nf 1 2 3\n')
+    out = {'describe': G.describe(m), 'modification': inp.get('modification'), 'history': inp.get('history'),
            'failures': [{'signature': f['signature'], 'what': f['what'], 'observed': f['observed']} for f in ctx.failures[n0:]],
            'fails': len(ctx.failures) > n0}
+    if res is not None:
+        out.update(surface_tri=res[0]['tri'][:10], surface_quad=res[0]['quad'][:10])
     if ctx.driver is not None:
-        d0 = len(ctx.disagreements)
-        correspond(ctx, m, obs, case)
-        res['model_disagreements'] = [{'what': d['what'], 'impl': d['impl'], 'model': d['model']} for d in ctx.disagreements[d0:]]
-    return res
+        out['model_disagreements'] = [{'what': d['what'], 'impl': d['impl'], 'model': d['model']} for d in ctx.disagreements[d0:]]
+    return out
